@@ -41,6 +41,41 @@ type c17Case struct {
 	// Profile.SampleIndexByName(Sel)) and SampleIndex is ignored; "" is the default selection
 	BySel bool   `json:"by_name,omitempty"`
 	Sel   string `json:"si,omitempty"`
+	// environment: basename of the working directory the real code is started from ("" = wherever
+	// the harness runs) and of a second one from which the result must be identical
+	CwdBase    string `json:"cwd_basename,omitempty"`
+	AltCwdBase string `json:"alt_cwd_basename,omitempty"`
+}
+
+// c17Chdir enters <replay dir>/.cwd-<pid>/<base> (created on demand; only its basename matters
+// and is recorded in the case, so a replay runs from a directory of the same name), points HOME
+// and TMPDIR below it, and returns the function that restores the previous state.
+func c17Chdir(c *Ctx, base, home string) func() {
+	if base == "" {
+		return func() {}
+	}
+	old, err := os.Getwd()
+	if err != nil {
+		c.Res.HarnessError = "C17 getwd: " + err.Error()
+		return func() {}
+	}
+	root := filepath.Join(c.Dir, fmt.Sprintf(".cwd-%d", os.Getpid()))
+	dir := filepath.Join(root, filepath.Base(base))
+	h := filepath.Join(root, home)
+	for _, d := range []string{dir, h, filepath.Join(h, "tmp")} {
+		os.MkdirAll(d, 0o755)
+	}
+	oldHome, oldTmp := os.Getenv("HOME"), os.Getenv("TMPDIR")
+	os.Setenv("HOME", h)
+	os.Setenv("TMPDIR", filepath.Join(h, "tmp"))
+	if err := os.Chdir(dir); err != nil {
+		c.Res.HarnessError = "C17 chdir: " + err.Error()
+	}
+	return func() {
+		os.Chdir(old)
+		os.Setenv("HOME", oldHome)
+		os.Setenv("TMPDIR", oldTmp)
+	}
 }
 
 // c17Req is one GET /flamegraph request.
@@ -713,107 +748,129 @@ func c17Run(c *Ctx, cs c17Case) {
 			"correspondence Spec.aggregate ~ oracle granularity reading", cs)
 	}
 
-	var real *c17Set
-	switch cs.Mode {
-	case "direct":
-		in := p.Copy() // the driver's order: aggregate (real Profile.Aggregate), then report.New(...).Stacks()
-		if err := c17Aggregate(in, cs.Gran, cs.NoInlines, cs.ShowColumns); err != nil {
-			c.Violation("C17/aggregate/error", "Profile.Aggregate fails on a valid profile: "+err.Error(), cs)
-			return
-		}
-		idx := cs.SampleIndex
-		if cs.BySel { // the real selection step of the driver (sampleFormat)
-			ri, err := in.SampleIndexByName(cs.Sel)
+	// (1) the real code. It runs with the working directory (and HOME, TMPDIR) the case names: the
+	// stack set must not depend on where pprof was started (no -source_path / -trim_path given).
+	exec := func(cwdBase, home string) *c17Set {
+		restore := c17Chdir(c, cwdBase, home)
+		defer restore()
+		var real *c17Set
+		switch cs.Mode {
+		case "direct":
+			in := p.Copy() // the driver's order: aggregate (real Profile.Aggregate), then report.New(...).Stacks()
+			if err := c17Aggregate(in, cs.Gran, cs.NoInlines, cs.ShowColumns); err != nil {
+				c.Violation("C17/aggregate/error", "Profile.Aggregate fails on a valid profile: "+err.Error(), cs)
+				return nil
+			}
+			idx := cs.SampleIndex
+			if cs.BySel { // the real selection step of the driver (sampleFormat)
+				ri, err := in.SampleIndexByName(cs.Sel)
+				if err != nil {
+					c.Violation("C17/select/rejects-exact-name", fmt.Sprintf("SampleIndexByName(%q) fails (%v) although column %d has that name (types %q)", cs.Sel, err, idx, c17TypeNamesOf(p)), cs)
+					return nil
+				}
+				if ri != idx {
+					c.Violation("C17/select/wrong-column", fmt.Sprintf("SampleIndexByName(%q) = %d, the first column with exactly that name is %d (types %q)", cs.Sel, ri, idx, c17TypeNamesOf(p)), cs)
+				}
+				if ri < 0 || ri >= len(in.SampleType) {
+					return nil
+				}
+				idx = ri
+			}
+			opts := &report.Options{
+				OutputFormat: report.Dot,
+				CallTree:     true,
+				SampleType:   in.SampleType[idx].Type,
+				SampleUnit:   in.SampleType[idx].Unit,
+				SampleValue:  func(v []int64) int64 { return v[idx] },
+			}
+			var ss report.StackSet
+			if pn := c17Safely(func() { ss = report.New(in, opts).Stacks() }); pn != "" {
+				c.Violation("C17/panic/Stacks", "report.Stacks() panics on a valid profile: "+pn, cs)
+				return nil
+			}
+			real = c17FromReal(&ss)
+			var nils []string
+			c17NilWalk(reflect.ValueOf(ss), "StackSet", &nils)
+			if len(nils) > 0 {
+				c.Violation("C17/nil/"+nils[0], "nil slice/map/pointer in the stack set (JSON null): "+c17Trunc(strings.Join(nils, ", ")), cs)
+			}
+			// the JSON encoding handed to the page
+			b, err := json.Marshal(ss)
 			if err != nil {
-				c.Violation("C17/select/rejects-exact-name", fmt.Sprintf("SampleIndexByName(%q) fails (%v) although column %d has that name (types %q)", cs.Sel, err, idx, c17TypeNamesOf(p)), cs)
-				return
+				c.Violation("C17/json/marshal-error", err.Error(), cs)
+				return nil
 			}
-			if ri != idx {
-				c.Violation("C17/select/wrong-column", fmt.Sprintf("SampleIndexByName(%q) = %d, the first column with exactly that name is %d (types %q)", cs.Sel, ri, idx, c17TypeNamesOf(p)), cs)
-			}
-			if ri < 0 || ri >= len(in.SampleType) {
-				return
-			}
-			idx = ri
-		}
-		opts := &report.Options{
-			OutputFormat: report.Dot,
-			CallTree:     true,
-			SampleType:   in.SampleType[idx].Type,
-			SampleUnit:   in.SampleType[idx].Unit,
-			SampleValue:  func(v []int64) int64 { return v[idx] },
-		}
-		var ss report.StackSet
-		if pn := c17Safely(func() { ss = report.New(in, opts).Stacks() }); pn != "" {
-			c.Violation("C17/panic/Stacks", "report.Stacks() panics on a valid profile: "+pn, cs)
-			return
-		}
-		real = c17FromReal(&ss)
-		var nils []string
-		c17NilWalk(reflect.ValueOf(ss), "StackSet", &nils)
-		if len(nils) > 0 {
-			c.Violation("C17/nil/"+nils[0], "nil slice/map/pointer in the stack set (JSON null): "+c17Trunc(strings.Join(nils, ", ")), cs)
-		}
-		// the JSON encoding handed to the page
-		b, err := json.Marshal(ss)
-		if err != nil {
-			c.Violation("C17/json/marshal-error", err.Error(), cs)
-			return
-		}
-		js, nulls, err := c17FromJSON(b)
-		if err != nil {
-			c.Violation("C17/json/undecodable", err.Error(), cs)
-			return
-		}
-		if len(nulls) > 0 {
-			c.Violation("C17/json/null:"+nulls[0], "the JSON encoding of the stack set contains null at "+strings.Join(nulls, ", "), cs)
-		}
-		// the JSON carries the same indices as the in-memory value
-		if ascii && c17Canon(js, true) != c17Canon(real, true) {
-			c.Violation("C17/json/differs-from-stackset", "decoded JSON differs from the StackSet it encodes", cs)
-		}
-	case "web":
-		reqs := append(append([]c17Req(nil), cs.Before...), cs.req())
-		pages, werr := c17WebSession(p, reqs)
-		if werr != "" {
-			c.Violation("C17/web/"+c17FirstWord(werr), "the /flamegraph handler did not serve stack data: "+werr, cs)
-			return
-		}
-		b := pages[len(pages)-1]
-		js, nulls, err := c17FromJSON(b)
-		if err != nil {
-			c.Violation("C17/json/undecodable", err.Error(), cs)
-			return
-		}
-		if len(nulls) > 0 {
-			c.Violation("C17/json/null:"+nulls[0], "the JSON in the /flamegraph page contains null at "+strings.Join(nulls, ", "), cs)
-		}
-		real = js
-		if want := p.SampleType[cs.SampleIndex].Type; js.HasType && js.Type != want && c17PlainASCII(want) {
-			c.Violation("C17/select/type-name", fmt.Sprintf("the served stack set says Type %+q, the selected column (si=%+q) is %+q", js.Type, cs.req().siText(), want), cs)
-		}
-		// the answer must not depend on what the server was asked before: the same request on a
-		// fresh server (and, with filters, that is the reference for the stack data itself)
-		if len(cs.Before) > 0 || filtered {
-			fp, ferr := c17WebSession(p, []c17Req{cs.req()})
-			if ferr != "" {
-				c.Violation("C17/web/fresh-"+c17FirstWord(ferr), "fresh server: "+ferr, cs)
-				return
-			}
-			fjs, _, err := c17FromJSON(fp[0])
+			js, nulls, err := c17FromJSON(b)
 			if err != nil {
 				c.Violation("C17/json/undecodable", err.Error(), cs)
-				return
+				return nil
 			}
-			if a, b := c17Canon(js, true), c17Canon(fjs, true); a != b || js.Unique() != fjs.Unique() {
-				c.Violation("C17/web/answer-depends-on-earlier-request/"+c17ChangedParam(cs),
-					fmt.Sprintf("after %d earlier request(s) on the same server /flamegraph serves different stack data than a fresh server: %s vs fresh %s", len(cs.Before), c17Trunc(a), c17Trunc(b)), cs)
+			if len(nulls) > 0 {
+				c.Violation("C17/json/null:"+nulls[0], "the JSON encoding of the stack set contains null at "+strings.Join(nulls, ", "), cs)
 			}
-			c.Res.Hit("web-sequence")
+			// the JSON carries the same indices as the in-memory value
+			if ascii && c17Canon(js, true) != c17Canon(real, true) {
+				c.Violation("C17/json/differs-from-stackset", "decoded JSON differs from the StackSet it encodes", cs)
+			}
+		case "web":
+			reqs := append(append([]c17Req(nil), cs.Before...), cs.req())
+			pages, werr := c17WebSession(p, reqs)
+			if werr != "" {
+				c.Violation("C17/web/"+c17FirstWord(werr), "the /flamegraph handler did not serve stack data: "+werr, cs)
+				return nil
+			}
+			b := pages[len(pages)-1]
+			js, nulls, err := c17FromJSON(b)
+			if err != nil {
+				c.Violation("C17/json/undecodable", err.Error(), cs)
+				return nil
+			}
+			if len(nulls) > 0 {
+				c.Violation("C17/json/null:"+nulls[0], "the JSON in the /flamegraph page contains null at "+strings.Join(nulls, ", "), cs)
+			}
+			real = js
+			if want := p.SampleType[cs.SampleIndex].Type; js.HasType && js.Type != want && c17PlainASCII(want) {
+				c.Violation("C17/select/type-name", fmt.Sprintf("the served stack set says Type %+q, the selected column (si=%+q) is %+q", js.Type, cs.req().siText(), want), cs)
+			}
+			// the answer must not depend on what the server was asked before: the same request on a
+			// fresh server (and, with filters, that is the reference for the stack data itself)
+			if len(cs.Before) > 0 || filtered {
+				fp, ferr := c17WebSession(p, []c17Req{cs.req()})
+				if ferr != "" {
+					c.Violation("C17/web/fresh-"+c17FirstWord(ferr), "fresh server: "+ferr, cs)
+					return nil
+				}
+				fjs, _, err := c17FromJSON(fp[0])
+				if err != nil {
+					c.Violation("C17/json/undecodable", err.Error(), cs)
+					return nil
+				}
+				if a, b := c17Canon(js, true), c17Canon(fjs, true); a != b || js.Unique() != fjs.Unique() {
+					c.Violation("C17/web/answer-depends-on-earlier-request/"+c17ChangedParam(cs),
+						fmt.Sprintf("after %d earlier request(s) on the same server /flamegraph serves different stack data than a fresh server: %s vs fresh %s", len(cs.Before), c17Trunc(a), c17Trunc(b)), cs)
+				}
+				c.Res.Hit("web-sequence")
+			}
+		default:
+			c.Res.HarnessError = "C17: unknown mode " + cs.Mode
+			return nil
 		}
-	default:
-		c.Res.HarnessError = "C17: unknown mode " + cs.Mode
+		return real
+	}
+	real := exec(cs.CwdBase, "home-a")
+	if real == nil {
 		return
+	}
+	if cs.AltCwdBase != "" {
+		alt := exec(cs.AltCwdBase, "home-b")
+		if alt == nil {
+			return
+		}
+		if a, b := c17Canon(real, ascii), c17Canon(alt, ascii); a != b || real.Unique() != alt.Unique() {
+			c.Violation("C17/env/depends-on-working-directory/"+c17DiffSection(a, b),
+				fmt.Sprintf("started in a directory named %q the stack set is %s; started in %q it is %s", cs.CwdBase, c17Trunc(a), cs.AltCwdBase, c17Trunc(b)), cs)
+		}
+		c.Res.Hit("env-two-working-directories")
 	}
 
 	// (2) direct oracle on the real stack set
@@ -967,6 +1024,7 @@ func c17Run(c *Ctx, cs c17Case) {
 }
 
 func runC17(c *Ctx) {
+	defer os.RemoveAll(filepath.Join(c.Dir, fmt.Sprintf(".cwd-%d", os.Getpid())))
 	c.Res.Rule = "direct: structured valid profiles (small name/location alphabets so that recursion, inlined lines, " +
 		"equal names in different files, locations without lines and empty stacks are frequent; 1–3 sample types, every " +
 		"sample index; negative/zero values; names \"\" and non-UTF-8 on a separate share; in 8% of the cases function/file " +
@@ -977,7 +1035,8 @@ func runC17(c *Ctx) {
 		"/flamegraph?si=&g=&noinlines=, JSON taken from the page; webseq: the same on profiles with >=2 sample types and labels, after 1-2 " +
 		"earlier requests on the SAME server that differ in one URL parameter (si, g, noinlines, showcolumns, f, i, h, s, tf, ti, reload), " +
 		"answer compared with oracle/model for this request and with a fresh server. In 45% of all cases the sample-type names are adversarial " +
-		"(case-fold families, numbers, inuse_/alloc_ relations, spaces, empty, duplicates) and the column is selected by index or BY NAME. Expected frames come from the harness's own reading " +
+		"(case-fold families, numbers, inuse_/alloc_ relations, spaces, empty, duplicates) and the column is selected by index or BY NAME. In 12% of the direct and web cases the real code runs from a scratch directory whose basename is a component of the file names, and again " +
+		"from an unrelated one with other HOME/TMPDIR: identical stack sets required. Expected frames come from the harness's own reading " +
 		"of the granularity (= Lean Spec.aggregate), never from Profile.Aggregate; 25% of locations repeat a function in their inline chain. Non-trivial: at least one getSrc call finds an " +
 		"already interned source (slots > distinct sources), i.e. the interning table and the place index are shared " +
 		"between stack slots; recursion (a source twice in one stack) is measured separately."
